@@ -6,8 +6,8 @@ S=/tmp/repo-seed
 exec 9>/tmp/try_seed.lock; flock 9    # one scratch worktree: serialise concurrent callers
 cd /verif
 if [ ! -d $S ]; then git -C /repo worktree add --detach $S HEAD -q; fi
-git -C $S checkout -q --detach $(git -C /repo rev-parse HEAD) 2>/dev/null; git -C $S checkout -q -- .
-git -C $S apply $wt/verif_seed/$l/patch.diff 2>/dev/null || git -C $S apply -3 $wt/verif_seed/$l/patch.diff || { echo "apply failed"; exit 2; }
+git -C $S reset -q --hard; git -C $S checkout -q --detach ${SEED_BASE:-$(git -C /repo rev-parse HEAD)} 2>/dev/null   # SEED_BASE: commit the patch was written against, when it no longer applies to HEAD
+git -C $S apply $wt/verif_seed/$l/patch.diff 2>/dev/null || git -C $S apply -3 $wt/verif_seed/$l/patch.diff || { echo "apply failed"; git -C $S reset -q --hard; exit 2; }
 VERIF_REPO=$S VERIF_BUILD=/tmp/vb-seed VERIF_OUT=/tmp/vb-seed/out ./check $p $tier > /tmp/try_seed.log 2>&1; rc=$?
 git -C $S checkout -q -- .
 grep -v KNOWN-FINDING /tmp/try_seed.log | grep -A1 "^VIOLATION\|HARNESS-ERROR" | head -6 | cut -c1-300
